@@ -1215,3 +1215,19 @@ def b_nc_merge(tier, rnd):
             cases.append((NoteContainer(list(a)), NoteContainer(list(b))))
     return {"rule": "8 x 8 ordered pairs of containers holding 0..5 notes (empty receiver, empty argument, overlapping and "
                     "disjoint pitch sets, enharmonic spellings)", "cases": cases}
+
+
+@battery("ly_containers")
+def b_ly_containers(tier, rnd):
+    from mingus.containers.note import Note
+    from mingus.containers.note_container import NoteContainer
+    names = all_names(2)
+    cases = [(None, None, True), (None, None, False)]
+    for k in (0, 1, 2, 3):
+        for _ in range(1 if k == 0 else 60):
+            nc = NoteContainer()
+            nc.notes = [Note(rnd.choice(names), rnd.randint(0, 8)) for _j in range(k)]
+            for s in (True, False):
+                cases.append((nc, None, s))
+    return {"rule": "rest; containers of 0..3 seeded notes (names with <= 2 accidentals, octaves 0..8, any order) x standalone; "
+                    "only the 4-note bound of the contract's expression limits the size", "cases": cases}
